@@ -6,6 +6,25 @@ V = os.path.dirname(os.path.dirname(os.path.abspath(__file__)))
 CHECKS = {
  "C01": ("exploration", "Differential monitor: millions of hostile-operand field operations per run (all prime/scalar/binary field types, raw redundant representations, solved operands on carry/fold/borrow boundaries, chains, representation-independence batches) executed by the real library in 3 (quick) / 6 (thorough) backend builds and compared with Python big-integer / GF(2)-polynomial arithmetic. Held = no disagreement on the executions observed; boundary classes observed are listed in the evidence.",
          "Python int arithmetic; moduli constants (cross-checked against the library's MINUS_ONE at start); the host CPU executing the same code paths as a user's build", "differential testing against an independent big-integer oracle under hostile operand generation", "4 C01"),
+
+ "C02": ("exploration", "Dynamic taint tracking of the optimized machine code: every listed entry point (field/scalar ops incl. division, sqrt, Legendre, batch inversion, decoders, selects and lookups with secret control words; group ops, scalar multiplications, decoding of secret bytes; key generation, signing, ECDH, X25519/X448, hashes on secret data) runs under valgrind memcheck with the secret inputs marked undefined; every conditional jump or memory address depending on a secret bit is reported and must be either a documented source-level declassification (ct_declassified.json) or a violation. A built-in leaky self-test must be detected or the run is inconclusive. Quick: default build; thorough: all six builds.",
+         "memcheck's definedness propagation; only the listed entry points and the pinned compiler/flags are covered; instruction-latency channels are out of scope", "valgrind memcheck as secret-taint tracker (ctgrind technique) on the release binary", "4 C02"),
+ "C03": ("exploration", "Chains (1..12 ops) of +,-,neg,double,xdouble,*u64 on the nine groups with exceptional operands (neutral, P+P, P+(-P), low/mixed-order, re-represented points, results re-used) executed by the library; every intermediate encoding and equals/isneutral mask compared with the affine textbook law of independent reference models.",
+         "reference group laws (validated on the repository's third-party KATs)", "differential testing against independent affine group-law models", "4 C03"),
+ "C04": ("exploration", "Complete black-box enumeration of every (digit, window, sign) scalar through mulgen (each built-in table entry selected once) plus hostile scalars x hostile points through P*k / k*P / mulgen compared with reference double-and-add.",
+         "reference scalar multiplication", "differential testing; exhaustive enumeration of table-entry selecting scalars", "4 C04"),
+ "C06": ("exploration", "Hostile byte strings per encoding format judged accept/reject by an independent reference decoder; encode() of several representatives; pairwise equals <=> identical bytes; byte-to-group maps against reference implementations.",
+         "reference decoders and maps (validated on the repository's valid/invalid KAT lists)", "differential testing of decoders/encoders/maps against reference codecs", "4 C06"),
+ "C10": ("exploration", "Fast variable-time routines (u*P+v*G, 128-bit and u0+u1*mu multiplier variants, verification helpers) on hostile scalars/multipliers/points compared with the same expression through the library's constant-time operations and with the independent reference; panics and step-budget overruns are violations.",
+         "reference group laws", "differential testing fast path vs constant-time path vs reference", "4 C10"),
+ "C11": ("exploration", "split_vartime on every type that has it and the endomorphism splits, on rationals a/b over the whole bit-length grid, convergents and extremes; contract checked arithmetically (documented truncation slack, (0,1) for zero, magnitude bounds); termination decided by a hooked loop-step counter (budget 8*bitlen+64, hard cap -> panic event), not by wall clock.",
+         "documented contracts; endomorphism eigenvalues from the reference models", "contract monitor with hooked step counter on unbalanced-lattice inputs", "4 C11"),
+ "C14": ("exploration", "X25519/X448 and base-point variants on hostile u (small-order, non-canonical, top bit, >= p, twist) and scalars (clamp boundary patterns) against the RFC 7748 ladder on Python integers; two-party agreement.",
+         "reference ladder (RFC 7748 vectors)", "differential testing against RFC 7748 reference", "4 C14"),
+ "C17": ("exploration", "Call-history monitor: random walks over update/finalize*/reset/clone/flip/extract on live contexts of every hash function (lengths around every block/rate boundary, all BLAKE2s out_len x key_len pairs) checked against hashlib on the bytes since the last reset.",
+         "CPython hashlib", "history checking against an executable model (hashlib)", "4 C17"),
+ "C20": ("exploration", "set_cond/select/cswap/set_condneg with both control words on every field and point type in all representations; equals/iszero/isneutral on equal values in different representations and on neighbours; all lookup primitives for in-range and out-of-range indices on hostile tables.",
+         "only the two documented control words are exercised", "differential testing with representation-diverse operands", "4 C20"),
  "C05": ("exploration", "Decoder/encoder monitor: hostile byte strings (every length 0..L+2, values q-1/q/q+1/2^(8L)-1, unused bits, one-byte deviations from q, reducing decodes of 0..4 blocks+1) through every decode/encode entry point of every field type on 3/6 backend builds; oracle = int.from_bytes and comparison with the modulus; exact status words required.",
          "Python int arithmetic; moduli constants", "differential testing of decoders/encoders against int.from_bytes on boundary byte strings", "4 C05"),
  "C12": ("exploration", "Division/inversion/sqrt/Legendre/batch-inversion monitor with divisors engineered against the approximate binary GCD, structured residues/non-residues in redundant representations, batch sizes around the 200-element block with zeros at boundaries; binary-field inverse/sqrt/trace/half-trace/qsolve against their defining equations; 3/6 backend builds.",
